@@ -392,6 +392,9 @@ func init() {
 			if c.Idx%12 == 11 {
 				return runC02SharedDefaults(c, r)
 			}
+			if c.Idx%12 == 5 {
+				return runC02OnceTarget(c, r)
+			}
 			var s Scenario
 			var fam string
 			if r.Intn(100) < 35 {
@@ -519,5 +522,70 @@ func runC02SharedDefaults(c *CaseCtx, r *rand.Rand) (res CaseResult) {
 		res.Evals++
 	}
 	res.Sample = map[string]interface{}{"scenario": s.String(), "missing_input": x.String(), "family": "shared-defaults"}
+	return res
+}
+
+
+// runC02OnceTarget: a run-once TARGET that has already succeeded must still
+// refuse a later call whose arguments cannot be derived (memoization is about
+// not executing again, not about skipping resolution).
+func runC02OnceTarget(c *CaseCtx, r *rand.Rand) (res CaseResult) {
+	s, _ := Constructive(r, ChainCfg{MaxTgt: 2, MaxDepth: 3, MultiIn: r.Intn(2) == 0, Distract: 1, BuiltP: 0, ErrP: 0.3})
+	drop := -1
+	for _, i := range r.Perm(len(s.Inputs)) {
+		t := s
+		t.Inputs = append(append([]Label{}, s.Inputs[:i]...), s.Inputs[i+1:]...)
+		if f := fixpoint(&t, may); !f.AllOK {
+			drop = i
+			break
+		}
+	}
+	if drop < 0 {
+		res.Skip = "no-critical-input"
+		return res
+	}
+	for i := range s.Convs {
+		s.Convs[i].Deliver, s.Convs[i].Once = DelFunc, false
+	}
+	s.Target.Once = true
+	res.Key = "once-target " + s.Key()
+	res.NonTrivial = true
+	res.obs("family.once-target", 1)
+	res.obs("underivable_cases", 1)
+	in, err := Instantiate(s, r)
+	if err != nil {
+		res.Skip = "instantiate"
+		return res
+	}
+	full := factsOf(&s)
+	short := s
+	short.Inputs = append(append([]Label{}, s.Inputs[:drop]...), s.Inputs[drop+1:]...)
+	shortFacts := factsOf(&short)
+	// 1. a satisfiable call (may fail with a converter error; fine)
+	o1 := DoCall(in.W, in.Target.Func, in.AllArgs(0, r))
+	res.Evals++
+	checkCall(in, &o1, &full, 0, 0, &res)
+	// 2. the same Func without the critical input, several times
+	for k := 1; k <= 3; k++ {
+		args := in.AllArgs(k, r)
+		// drop the option of the critical input: rebuild the list without it
+		var kept []am.Arg
+		kept = append(kept, in.ConvArgs...)
+		for i, l := range s.Inputs {
+			if i != drop {
+				kept = append(kept, InputArg(l, in.InputIDs[i]))
+			}
+		}
+		_ = args
+		n0 := in.W.NumEvents()
+		o := DoCall(in.W, in.Target.Func, kept)
+		res.Evals++
+		inShort := &Inst{W: in.W, S: short, Target: in.Target, Convs: in.Convs}
+		checkCall(inShort, &o, &shortFacts, k, n0, &res)
+		if o.Class == ClsUnsat {
+			res.obs("refused_with_unsatisfied_error", 1)
+		}
+	}
+	res.Sample = map[string]interface{}{"scenario": s.String(), "family": "once-target", "dropped_input": s.Inputs[drop].String(), "first_call": o1.Class}
 	return res
 }
